@@ -253,6 +253,20 @@ fn get_utf8(f: &Value, key: &str) -> Result<String, String> {
     String::from_utf8(get_bytes(f, key)?).map_err(|e| format!("field {:?} is not UTF-8: {}", key, e))
 }
 
+/// REALM / NONCE are quoted-strings: the value may be handed to the constructor bare, in double
+/// quotes and / or surrounded by white space; the helper field "spell" (not part of the logical
+/// value) says how it is written. The attribute's value is "s" in every case.
+fn spelled(f: &Value) -> Result<String, String> {
+    let s = get_utf8(f, "s")?;
+    let plain = !s.is_empty() && !s.starts_with([' ', '"', '\t']) && !s.ends_with([' ', '"', '\t', '\\']);
+    Ok(match f.get("spell").and_then(|x| x.as_u64()).unwrap_or(0) {
+        1 if plain => format!(" {}", s),
+        2 if plain => format!("\"{}\"", s),
+        3 if plain => format!(" \" {} \"", s),
+        _ => s,
+    })
+}
+
 fn get_limbs(f: &Value, key: &str, n: usize) -> Result<u64, String> {
     let arr = get(f, key)?
         .as_array()
@@ -491,9 +505,18 @@ fn string_edges(kind: &str) -> Vec<Value> {
     if text == Text::Free {
         out.push(repeated_text(127 * 4, FOUR_BYTE));
     }
-    out.into_iter()
-        .map(|s| json!({"s": jbytes(s.as_bytes())}))
-        .collect()
+    let mut vals: Vec<Value> = out.iter().map(|s| json!({"s": jbytes(s.as_bytes())})).collect();
+    if text == Text::Quoted {
+        // the limit counts the value, not the way it is written
+        for (i, s) in [repeated_text(max, 'q'), repeated_text(max - 1, 'r'), "realm.example".to_string()].iter().enumerate() {
+            for spell in 1..=3u64 {
+                if (i as u64 + spell) % 1 == 0 {
+                    vals.push(json!({"s": jbytes(s.as_bytes()), "spell": spell}));
+                }
+            }
+        }
+    }
+    vals
 }
 
 fn user_hash_value(name: &str, realm: &str) -> Value {
@@ -790,6 +813,9 @@ pub fn generate(kind: &str, rng: &mut StdRng, edge: usize) -> Value {
     if let Some((min, max, text)) = string_limits(kind) {
         let len = random_len(rng, min, max);
         let s = random_text(rng, len, text);
+        if text == Text::Quoted && rng.random_range(0..100) < 30 {
+            return json!({"s": jbytes(s.as_bytes()), "spell": rng.random_range(1..=3u64)});
+        }
         return json!({"s": jbytes(s.as_bytes())});
     }
 
@@ -920,8 +946,8 @@ pub fn construct(kind: &str, fields: &Value) -> Result<StunAttribute, String> {
         "XorRelayedAddress" => XorRelayedAddress::from(get_socket_addr(f)?).into(),
         "ErrorCode" => ErrorCode::new(construct_error_code(f)?).into(),
         "UserName" => UserName::new(get_utf8(f, "s")?).map_err(err)?.into(),
-        "Realm" => Realm::new(get_utf8(f, "s")?).map_err(err)?.into(),
-        "Nonce" => Nonce::new(get_utf8(f, "s")?).map_err(err)?.into(),
+        "Realm" => Realm::new(spelled(f)?).map_err(err)?.into(),
+        "Nonce" => Nonce::new(spelled(f)?).map_err(err)?.into(),
         "Software" => Software::new(get_utf8(f, "s")?).map_err(err)?.into(),
         "UnknownAttributes" => {
             let arr = get(f, "types")?
